@@ -52,6 +52,13 @@ def run_hist(opts, ops, seed=0, threaded=False, kind="plain"):
                     running["n"] -= 1
 
             t = Task("verif-task", target, **opts)
+
+            async def twin_target():
+                await asyncio.sleep(2)
+
+            twin = Task("verif-task", twin_target, **opts)      # another task object that happens to carry the same name
+
+            mine_set = set()          # the asyncio tasks that are instances of t
             made, counted, runaway = [], [0], []       # every asyncio task created on this loop; those named after the task are its instances
 
             def factory(lp, coro, **kw):
@@ -63,6 +70,9 @@ def run_hist(opts, ops, seed=0, threaded=False, kind="plain"):
                 if runaway:
                     tk.cancel()
                 made.append(tk)
+                fr = getattr(coro, "cr_frame", None)
+                if getattr(coro, "__qualname__", "").endswith("Task._start_internal") and fr is not None and fr.f_locals.get("self") is t:
+                    mine_set.add(tk)              # an instance of t (not of its namesake), decided while the coroutine still has its frame
                 return tk
 
             loop.set_task_factory(factory)
@@ -82,17 +92,20 @@ def run_hist(opts, ops, seed=0, threaded=False, kind="plain"):
                     cm.connection_state_changed(XknxConnectionState.CONNECTED)
                 elif op == "connecting":
                     cm.connection_state_changed(XknxConnectionState.CONNECTING)
+                elif op == "twin":            # the namesake is started and removed again: nothing of this concerns t
+                    reg.start_task(twin)
+                    reg.remove_task(twin)
                 elif op == "t1":
                     await asyncio.sleep(1)
                 elif op == "t5":
                     await asyncio.sleep(5)
-                opname = "lost" if op == "connecting" else op if op not in ("t1", "t5") else "tick"
+                opname = "lost" if op == "connecting" else op if op not in ("t1", "t5", "twin") else "tick"
                 if noobs:          # the next call follows at once: nothing is observed in between
                     trace.append({"op": opname, "live": 0, "new": 0, "running": 0, "noobs": 1})
                     continue
 
                 def fresh():
-                    n = sum(1 for tk in made if tk.get_name() == "verif-task")
+                    n = len(mine_set)
                     was, counted[0] = counted[0], n
                     return 1 if n > was else 0
                 new = fresh()
@@ -100,7 +113,7 @@ def run_hist(opts, ops, seed=0, threaded=False, kind="plain"):
                 await asyncio.sleep(0)
                 if threaded:
                     new = max(new, fresh())          # the report was processed by the loop only now
-                live = [x for x in asyncio.all_tasks() if x.get_name() == "verif-task" and not x.done()]
+                live = [x for x in asyncio.all_tasks() if not x.done() and x in mine_set]
                 trace.append({"op": opname, "live": len(live), "new": new, "running": max(running["n"], runaway[0] if runaway else 0), "noobs": 0})
             reg.stop()
             await asyncio.sleep(0)
@@ -126,9 +139,13 @@ def histories(ck):
         for ops in itertools.product(OPS + tuple(PAIRS), repeat=n):
             if any(o in PAIRS for o in ops) and "stop" not in ops:
                 hs.append(("start",) + ops + ("t1", "lost", "t1", "conn"))
+    for tail in itertools.product(("remove", "lost", "start", "t5"), ("t1", "conn", "lost", "start")):
+        hs.append(("start", "twin") + tail + ("t1", "lost", "t1", "conn"))
+        hs.append(("start", "t1", "twin", "t1") + tail)
+        hs.append(("start", "twin") + tail + ("stop",))
     for _ in range(100 if ck.tier == "quick" else 2000):
         n = rnd.randrange(6, 14)
-        hs.append(tuple(rnd.choices(OPS[:2] + OPS[3:] + tuple(PAIRS), weights=[3, 1, 3, 3, 2, 2, 2, 2, 2, 1], k=n)))
+        hs.append(tuple(rnd.choices(OPS[:2] + OPS[3:] + tuple(PAIRS) + ("twin",), weights=[3, 1, 3, 3, 2, 2, 2, 2, 2, 1, 1], k=n)))
     return hs
 
 
